@@ -541,10 +541,35 @@ class Run:
                     raise BaseExceptionGroup("mixed", [c, b]) from None
             elif kind == "started":
                 self.do_started(tid, op[1], ctx)
+            elif kind == "hold":
+                await self.hold_native_requests(tid, op[1])
             elif kind == "await_handle":
                 await self.await_handle(tid, op[1], op[2])
             else:
                 raise AssertionError(op)
+
+    async def hold_native_requests(self, tid: Any, n: int) -> None:
+        """the task cancels itself natively, catches the CancelledError and goes on *without*
+        uncancel() - what asyncio.timeout() / asyncio.TaskGroup do between their cancel() and
+        their exit.  From here on Task.cancelling() has a non-zero baseline, which makes a
+        scope or group exit that calls uncancel() too often visible (at a baseline of 0 the
+        count is floored and the surplus disappears).  Skipped when a cancellation is under
+        way for the task: the generated code never swallows one of AnyIO's."""
+        task = asyncio.current_task()
+        for _ in range(n):
+            if task._must_cancel or self.sh.task_eff(tid):  # type: ignore[attr-defined]
+                self.window("hold_skipped_cancellation_under_way")
+                return
+
+            task.cancel()
+            try:
+                await asyncio.sleep(0)
+            except asyncio.CancelledError as e:
+                if e.args and isinstance(e.args[0], str) and e.args[0].startswith("Cancelled via"):
+                    raise
+
+                self.ev(tid, "native-request-held", task.cancelling())
+                self.window("native_request_held")
 
     async def blocking(self, tid: Any, kind: str, fn, never: bool = False,  # noqa: ANN001
                        event: Any = None, dur: float | None = None,
